@@ -362,3 +362,69 @@ pub fn new_env() -> Env {
     env.budget().reset_unlimited();
     env
 }
+
+// ------------------------------------------------------------------------------------------------
+// authorisation TREES (root invocation + the sub-invocations made on behalf of the same address)
+// ------------------------------------------------------------------------------------------------
+#[derive(Clone)]
+pub struct Inv {
+    pub contract: Address,
+    pub fn_name: String,
+    pub args: soroban_sdk::Vec<Val>,
+    pub subs: Vec<Inv>,
+}
+impl Inv {
+    pub fn new(contract: &Address, fn_name: &str, args: soroban_sdk::Vec<Val>, subs: Vec<Inv>) -> Inv {
+        Inv { contract: contract.clone(), fn_name: fn_name.to_string(), args, subs }
+    }
+    /// leaked on purpose: MockAuthInvoke borrows everything and the harness is short-lived
+    fn leak(&self) -> &'static soroban_sdk::testutils::MockAuthInvoke<'static> {
+        let subs: Vec<soroban_sdk::testutils::MockAuthInvoke<'static>> = self.subs.iter().map(|s| s.leak_owned()).collect();
+        let subs: &'static [soroban_sdk::testutils::MockAuthInvoke<'static>] = Box::leak(subs.into_boxed_slice());
+        Box::leak(Box::new(soroban_sdk::testutils::MockAuthInvoke {
+            contract: Box::leak(Box::new(self.contract.clone())),
+            fn_name: Box::leak(self.fn_name.clone().into_boxed_str()),
+            args: self.args.clone(),
+            sub_invokes: subs,
+        }))
+    }
+    fn leak_owned(&self) -> soroban_sdk::testutils::MockAuthInvoke<'static> {
+        let subs: Vec<soroban_sdk::testutils::MockAuthInvoke<'static>> = self.subs.iter().map(|s| s.leak_owned()).collect();
+        let subs: &'static [soroban_sdk::testutils::MockAuthInvoke<'static>] = Box::leak(subs.into_boxed_slice());
+        soroban_sdk::testutils::MockAuthInvoke {
+            contract: Box::leak(Box::new(self.contract.clone())),
+            fn_name: Box::leak(self.fn_name.clone().into_boxed_str()),
+            args: self.args.clone(),
+            sub_invokes: subs,
+        }
+    }
+}
+
+/// Auth entries for trees: `<addr>` authorises the full tree, `<addr>!` the tree with other root arguments,
+/// `<addr>~` the root invocation only (sub-invocations missing).  Only plain entries count as authorisation.
+pub fn install_auth_tree(env: &Env, spec_tok: &str, tree: &Inv, wrong_root_args: soroban_sdk::Vec<Val>) {
+    use soroban_sdk::testutils::MockAuth;
+    match spec_tok {
+        "-" => env.set_auths(&[]),
+        "*" => env.mock_all_auths_allowing_non_root_auth(),
+        _ => {
+            let mut mocks: Vec<MockAuth<'static>> = vec![];
+            for t in spec_tok.split(',') {
+                let (a, inv) = if let Some(a) = t.strip_suffix('!') {
+                    let mut w = tree.clone();
+                    w.args = wrong_root_args.clone();
+                    (a, w)
+                } else if let Some(a) = t.strip_suffix('~') {
+                    let mut w = tree.clone();
+                    w.subs.clear();
+                    (a, w)
+                } else {
+                    (t, tree.clone())
+                };
+                let addr: &'static Address = Box::leak(Box::new(Addr::parse(a).sdk(env)));
+                mocks.push(MockAuth { address: addr, invoke: inv.leak() });
+            }
+            env.mock_auths(&mocks);
+        }
+    }
+}
